@@ -189,6 +189,16 @@ def _impl(tier, seed, search):
         'cross(symbolic,numeric)': (lambda: b.cross([x, y, z], [1, 2, 3]), lambda x_, y_, z_: b.cross([x_, y_, z_], [1, 2, 3]), [x, y, z]),
         'simplify(float coefficients)': (lambda: (SE3.Rx(th) * SE3.Ry(0.3) * SE3(x, 1.2345678912345, z)).simplify(), lambda t, x_, z_: SE3.Rx(t) * SE3.Ry(0.3) * SE3(x_, 1.2345678912345, z_), [th, x, z]),
         'simplify(SO3 float)': (lambda: (SO3.Rx(th) * SO3.Rz(1.1)).simplify(), lambda t: SO3.Rx(t) * SO3.Rz(1.1), [th]),
+        # both modes of the velocity Jacobian, on a generic matrix and on a pose with rotation and translation
+        'tr2jac(samebody)': (lambda: b.tr2jac(Tobj, True), lambda *p: b.tr2jac(Tmat(*p), True), list(ms)),
+        'tr2jac(trotx(t=), samebody)': (lambda: b.tr2jac(b.trotx(th, t=[x, y, z]), True), lambda t, x_, y_, z_: b.tr2jac(b.trotx(t, t=[x_, y_, z_]), True), [th, x, y, z]),
+        'tr2jac(trotx(t=))': (lambda: b.tr2jac(b.trotx(th, t=[x, y, z])), lambda t, x_, y_, z_: b.tr2jac(b.trotx(t, t=[x_, y_, z_])), [th, x, y, z]),
+        # a pose built from a list / tuple of pose objects, from a copy, and grown by append / extend
+        'SE3([X1,X2])[1]': (lambda: SE3([SE3.Rx(th), SE3(x, y, z)]).data[1], lambda t, x_, y_, z_: SE3([SE3.Rx(t), SE3(x_, y_, z_)]).data[1], [th, x, y, z]),
+        'SE3([X1,X2])[0]': (lambda: SE3([SE3.Rx(th), SE3(1, 2, 3)]).data[0], lambda t: SE3([SE3.Rx(t), SE3(1, 2, 3)]).data[0], [th]),
+        'SO3([X1,X2])[0]': (lambda: SO3([SO3.Rx(th), SO3.Ry(a1)]).data[0], lambda t, u: SO3([SO3.Rx(t), SO3.Ry(u)]).data[0], [th, a1]),
+        'SE3(X)': (lambda: SE3(SE3.Rx(th) * SE3(x, y, z)), lambda t, x_, y_, z_: SE3(SE3.Rx(t) * SE3(x_, y_, z_)), [th, x, y, z]),
+        'SE3.append': (lambda: (lambda X_: (X_.append(SE3(x, y, z)), X_.data[1])[1])(SE3.Rx(th)), lambda t, x_, y_, z_: (lambda X_: (X_.append(SE3(x_, y_, z_)), X_.data[1])[1])(SE3.Rx(t)), [th, x, y, z]),
         'Twist3.Rx': (lambda: Twist3.Rx([th]).S, lambda t: Twist3.Rx([t]).S, [th]), 'Twist3.Ry': (lambda: Twist3.Ry([th]).S, lambda t: Twist3.Ry([t]).S, [th]), 'Twist3.Rz': (lambda: Twist3.Rz([th]).S, lambda t: Twist3.Rz([t]).S, [th]),
     }
     for name, (symcall, numcall, syms) in ENT.items():
